@@ -434,6 +434,17 @@ impl<'a> VisitMut for LogPass<'a> {
                     continue;
                 }
             }
+            // R20: a `const` item inside a body becomes a `let` with the same type and initialiser (a reference type
+            // without lifetime gets 'static, as in a const)
+            if let Stmt::Item(Item::Const(c)) = &s {
+                let name = &c.ident;
+                let mut ty = (*c.ty).clone();
+                if let Type::Reference(r) = &mut ty { if r.lifetime.is_none() { r.lifetime = Some(parse_quote!('static)); } }
+                let ex = &c.expr;
+                self.rules.hit("R20.inner_const_as_let");
+                out.push(parse_quote!(let #name: #ty = #ex;));
+                continue;
+            }
             // R19: `use` declarations inside a body are dropped (the names are provided by the unit's prelude)
             if matches!(&s, Stmt::Item(Item::Use(_))) { self.rules.hit("R19.inner_use_dropped"); continue; }
             out.push(s);
